@@ -20,7 +20,7 @@ func init() {
 	lock := func(fr *frame, args []Value) Value {
 		m := fr.m
 		p := fr.ptr(args[0])
-		m.yield()
+		m.yieldSync()
 		s := m.mutexOf(p)
 		m.blockUntil(func() bool { return !s.locked && s.readers == 0 })
 		s.locked, s.owner = true, m.cur
@@ -52,7 +52,7 @@ func init() {
 	reg("(*sync.RWMutex).RLock", func(fr *frame, args []Value) Value {
 		m := fr.m
 		p := fr.ptr(args[0])
-		m.yield()
+		m.yieldSync()
 		s := m.mutexOf(p)
 		m.blockUntil(func() bool { return !s.locked })
 		s.readers++
@@ -123,7 +123,7 @@ func init() {
 	reg("(*sync.WaitGroup).Wait", func(fr *frame, args []Value) Value {
 		m := fr.m
 		s := wg(m, fr.ptr(args[0]))
-		m.yield()
+		m.yieldSync()
 		m.blockUntil(func() bool { return s.n == 0 })
 		return nil
 	})
